@@ -22,14 +22,14 @@ Inductive dres :=
 | DOverflow                     (* protowire.ParseError(errCodeOverflow) *)
 | DTooLarge (size max : N)      (* *SizeTooLargeError{Size, MaxSize} *)
 | DReaderErr                    (* the reader's own non-EOF error, unchanged *)
-| DAllocPanic                   (* make([]byte, size) panics: len out of range *)
 | DOutOfFuel.                   (* model artefact, shown unreachable *)
 
-(* defaultMaxSize = 4 << 20; math.MaxInt on 64-bit; the runtime's maxAlloc
-   (linux/amd64: 1<<48): make([]byte, n) panics "len out of range" above it. *)
+(* defaultMaxSize = 4 << 20; math.MaxInt on 64-bit; maxPreallocSize = 4 << 20:
+   above it the body is read incrementally (io.CopyN into a bytes.Buffer)
+   instead of into one make([]byte, size) *)
 Definition default_max_size : N := 4194304.
 Definition max_int : N := 9223372036854775807.
-Definition max_alloc : N := 281474976710656.
+Definition max_prealloc_size : N := 4194304.
 (* len(sizeArr) = binary.MaxVarintLen64: iterations of the ReadByte loop *)
 Definition size_arr_len : nat := 10.
 
@@ -114,12 +114,18 @@ Definition unmarshal_from (o : oracle) (max_size : Z) (s : list byte) : dres * l
       if emax <? size then (DTooLarge size emax, r)
       else if is_bufio o && peek_ok o size && (size <=? max_int) && (size <=? N.of_nat (length r))
       then let (b, r') := take_upto r size in (unmarshal b, r')
-      else if max_alloc <? size then (DAllocPanic, r)
-      else match read_full (S (length r)) o 0 size [] r with
-           | RFOk b r' => (unmarshal b, r')
-           | RFShort => (if terr then DReaderErr else DUnexpectedEOF, [])
-           | RFFuel => (DOutOfFuel, [])
-           end
+      else if (size <=? max_prealloc_size) || (size <=? max_int) then
+        (* make([]byte, size) + io.ReadFull, or io.CopyN(&buf, r, int64(size)): both deliver
+           exactly the next [size] bytes or fail short, whatever the chunking *)
+        match read_full (S (length r)) o 0 size [] r with
+        | RFOk b r' => (unmarshal b, r')
+        | RFShort => (if terr then DReaderErr else DUnexpectedEOF, [])
+        | RFFuel => (DOutOfFuel, [])
+        end
+      else
+        (* only reachable with MaxSize < -1: int64(size) is negative, io.CopyN reads
+           nothing and reports no error, the body is empty *)
+        (unmarshal [], r)
     end
   end.
 
@@ -148,9 +154,9 @@ Definition unmarshal_from_ref (max_size : Z) (s : list byte) : dres * list byte 
     | Ok (size, _) =>
       let emax := effective_max max_size in
       if emax <? size then (DTooLarge size emax, r)
+      else if max_int <? size then (unmarshal [], r)
       else if size <=? N.of_nat (length r)
       then (unmarshal (firstn (N.to_nat size) r), skipn (N.to_nat size) r)
-      else if max_alloc <? size then (DAllocPanic, r)
       else (if terr then DReaderErr else DUnexpectedEOF, [])
     end
   end.
